@@ -179,6 +179,11 @@ func (g *sgen) schema(depth int) any {
 		if r.Chance(15) {
 			s = append(s, KV{"maxProperties", RawNum(fmt.Sprint(1 + r.Intn(3)))})
 		}
+		if r.Chance(20) {
+			// the member names themselves, as string instances
+			pn := []any{OObj{{"maxLength", RawNum("1")}}, OObj{{"pattern", "^[ab]"}}, OObj{{"const", "a"}}, OObj{{"enum", []any{"a", "c", "zz"}}}, false, true, OObj{{"type", "string"}}, OObj{{"type", "number"}}}
+			s = append(s, KV{"propertyNames", pn[r.Intn(len(pn))]})
+		}
 		return s
 	case x < 82:
 		s := OObj{{"type", "array"}}
@@ -209,8 +214,33 @@ func (g *sgen) schema(depth int) any {
 		if r.Chance(25) {
 			s = append(s, KV{"maxItems", RawNum(fmt.Sprint(1 + r.Intn(3)))})
 		}
+		if r.Chance(30) {
+			s = append(s, KV{"contains", g.schema(depth - 1)})
+			// the counting keywords exist from 2019-09 on; under draft-07 they are unknown words and say nothing
+			if r.Chance(40) {
+				s = append(s, KV{"minContains", RawNum(fmt.Sprint(r.Intn(3)))})
+			}
+			if r.Chance(40) {
+				s = append(s, KV{"maxContains", RawNum(fmt.Sprint(r.Intn(3)))})
+			}
+		} else if r.Chance(8) {
+			// without contains they say nothing either
+			s = append(s, KV{"minContains", RawNum("2")})
+		}
 		return s
-	case x < 94:
+	case x >= 88 && x < 94:
+		s := OObj{}
+		if r.Chance(85) {
+			s = append(s, KV{"if", g.schema(depth - 1)})
+		}
+		if r.Chance(75) {
+			s = append(s, KV{"then", g.schema(depth - 1)})
+		}
+		if r.Chance(60) {
+			s = append(s, KV{"else", g.schema(depth - 1)})
+		}
+		return s
+	case x < 88:
 		kw := []string{"allOf", "anyOf", "oneOf"}[r.Intn(3)]
 		n := 1 + r.Intn(3)
 		ss := make([]any, n)
@@ -282,7 +312,8 @@ func (g *sgen) conforming(s any, depth int) (any, bool) {
 		}
 		return nil
 	}
-	if get("$ref") != nil || get("allOf") != nil || get("anyOf") != nil || get("oneOf") != nil || get("not") != nil || get("enum") != nil || get("const") != nil {
+	if get("$ref") != nil || get("allOf") != nil || get("anyOf") != nil || get("oneOf") != nil || get("not") != nil || get("enum") != nil || get("const") != nil ||
+		get("if") != nil || get("then") != nil || get("else") != nil || get("propertyNames") != nil || get("contains") != nil {
 		return nil, false
 	}
 	tp, _ := get("type").(string)
